@@ -4,6 +4,7 @@
    merged_transitions has g_m elements (one per source state [A: compile time]); the one whose source is the active state of the
    region sits at ghost position g_wit (outside 0..g_m-1 if there is none).                                                     */
 extern const int g_m, g_wit;
+extern const _Bool g_has_transitions, g_has_internal_transitions, g_has_forward_transitions;   /* compile-time facts of the enclosing dispatch_table: free symbolic constants */
 extern const event_t g_evt;
 extern int g_calls, g_ret;
 extern const _Bool g_kleene;                /* is_kleene_event<Transition::transition_event> for the selected transition */
